@@ -28,7 +28,20 @@ META = {
             "Specification growth (no verdict, divergences are NOTEs): GccGroups.tla / GccOveruse.tla specify the arrival-group "
             "accumulator, the rate window, adaptiveThreshold.compare, the overuse detector's hysteresis and the controller state "
             "exactly over integers; TLC-generated and random input sequences run through the real stages and every output is "
-            "compared by TLC (Trace_GccGrow).",
+            "compared by TLC (Trace_GccGrow). GccRate.tla specifies the remaining numeric stages as exact machines over integers "
+            "(rates in bit/s, a virtual clock in microseconds, fractions in parts per 10^9, the decrease-rate EMA as natural "
+            "numbers of any size): the loss-based estimator (averaged loss, +5 % below 2 %, x(1 - loss/2) above 10 %, the two "
+            "200 ms timers, its own clamp, getEstimate) and the rate controller (8 %/s multiplicative and packet-size/RTT "
+            "additive increase, decrease to 0.85 x received rate, hold, clamp, EMA and its 3-sigma band, what is emitted when), "
+            "each float64 rounding located and each output given a derived tolerance (exact, or within 1 bit/s); GccKalman.tla "
+            "states the structure of one filter update (innovation truncated to microseconds, noise clamp >= 1, gain from the NEW "
+            "noise estimate, estimate moves toward the measurement by gain x innovation, error update) as a relation. MC_GccRate "
+            "checks clamps, monotonicity, timer and definedness properties from 11 warm-up states with five negative controls; "
+            "TLC-enumerated input sequences over alphabets relative to the machine state (loss exactly at 2 % / 10 % and one unit "
+            "either side, reports exactly at the timers and one grid step either side, received rate 0 / equal / 1.5 x target / "
+            "at the band edges, RTT 0 / -100 ms / 200 s, all nine state-table entries) plus seeded random walks and random scripts "
+            "run on the real lossBasedBandwidthEstimator, rateController, kalman and delayController; TLC compares every logged "
+            "output (Trace_GccRate).",
     "note": "Claimed for the discrete envelope only: the numeric accuracy of the estimate (Kalman filter, thresholds, AIMD "
             "constants, loss averaging) is abstracted into nondeterministic integers and NOT checked. Real-code schedules are "
             "sampled (real goroutines, real clock), only the model's interleavings are exhaustive. Trusted: the reading of "
@@ -48,12 +61,18 @@ RULE = ("scripts = TLC-enumerated sequences of L rounds (send n packets with a d
         "traces in which the target bitrate was published at least once. Growth batches (coverage.growth, growth_notes): every "
         "sequence of L acks / samples over boundary alphabets relative to the group / window / detector state + random long "
         "sequences through the real arrivalGroupAccumulator, rateCalculator, adaptiveThreshold.compare, overuseDetector, "
-        "rateController; not part of the verdict except for panics/hangs.")
+        "rateController; coverage.growth_rate: Gen_GccRate behaviours (every sequence of L calls from each warm-up state over "
+        "the state-relative alphabets) + TLC -simulate walks + seeded random scripts through the real loss-based estimator, "
+        "rate controller (virtual clock realised by re-basing the objects' time stamps before every call, guard bands, slow "
+        "calls undone and repeated), kalman filter and delayController, every output compared by TLC within the tolerance "
+        "derived in GccRate.tla; hazards_observed = hazards of the code as read (named in GccRate.tla, shown by negative "
+        "controls of MC_GccRate) that occurred in the recorded traces. Not part of the verdict except for panics/hangs.")
 
 PKG = "pkg/gcc"
 SHARED = os.path.join(vlib.VERIF, "harness", "pkg", "gcc", "zz_verif_gccshared_test.go.tpl")
 COMMON = os.path.join(vlib.VERIF, "harness", "common", "zz_verif_common_test.go.tpl")
 GROW = "zz_verif_gccgrow_test.go"
+RATE = "zz_verif_gccrate_test.go"
 
 CONFIGS = [
     {"defaults": True, "init": 10000, "min": 5000, "max": 50000000},
@@ -82,6 +101,7 @@ def _overlay(ctx, level, safe):
     }
     if rel == "pkg/gcc":
         m[os.path.join(rel, GROW)] = os.path.join(vlib.VERIF, "harness", rel, GROW)
+        m[os.path.join(rel, RATE)] = os.path.join(vlib.VERIF, "harness", rel, RATE)
     return rel, vlib.overlay(ctx, m, name="overlay-%s.json" % safe)
 
 
@@ -358,29 +378,7 @@ def random_od_script(rng, n):
 _GROWTH = re.compile(r'<<\s*"GROWTH",\s*(\d+),\s*"([A-Za-z-]+)"')
 
 
-def grow_batch(ctx, scripts, tag):
-    if not scripts:
-        return
-    safe = re.sub(r"[^A-Za-z0-9_.-]", "_", tag)
-    rel, ov = _overlay(ctx, "bwe", safe)
-    inp = ctx.path("%s-%s.in" % (ctx.pid, safe))
-    outp = ctx.path("%s-%s.trace" % (ctx.pid, safe))
-    vlib.write_ndjson(inp, scripts)
-    rc, out = _go(ctx, rel, ov, "TestVerifGccGrowExec", inp, outp, 1)
-    events = vlib.read_ndjson(outp) if os.path.exists(outp) else []
-    g = ctx.cov.setdefault("growth", {"scripts": 0, "events": 0, "groups_emitted": 0, "rates": 0, "rates_undefined": 0,
-                                      "od_samples": 0, "od_overuse": 0, "od_underuse": 0, "diverging_traces": {}})
-    g["scripts"] += len(scripts)
-    if rc != 0:   # the property does state that feeding feedback never panics / blocks
-        nres = sum(1 for e in events if e.get("a") == "reset")
-        vlib.report_violation(ctx, _crash_what(tag, out), {
-            "kind": tag, "level": "grow", "script": scripts[nres - 1] if 0 < nres <= len(scripts) else None,
-            "go_output": out[-6000:]})
-        return
-    v = vlib.validate(ctx, "Trace_GccGrow.tla", outp, timeout=1800)
-    if v.hw != v.n + 1 or "Error:" in v.out:
-        raise vlib.Infra("growth trace validator did not consume the trace (%s):\n%s" % (tag, v.out[-2500:]))
-    g["events"] += v.n
+def _count_discrete(g, events):
     for e in events:
         if e["a"] == "gbatch":
             g["groups_emitted"] += len(e["out"])
@@ -391,6 +389,41 @@ def grow_batch(ctx, scripts, tag):
             g["od_samples"] += 1
             g["od_overuse"] += e["use"] == "overuse"
             g["od_underuse"] += e["use"] == "underuse"
+
+
+_DISCRETE0 = {"scripts": 0, "events": 0, "groups_emitted": 0, "rates": 0, "rates_undefined": 0,
+              "od_samples": 0, "od_overuse": 0, "od_underuse": 0, "diverging_traces": {}}
+
+
+def grow_batch(ctx, scripts, tag, test="TestVerifGccGrowExec", module="Trace_GccGrow.tla", count=_count_discrete,
+               covkey="growth", fresh=_DISCRETE0, go_timeout=900):
+    if not scripts:
+        return
+    safe = re.sub(r"[^A-Za-z0-9_.-]", "_", tag)
+    rel, ov = _overlay(ctx, "bwe", safe)
+    inp = ctx.path("%s-%s.in" % (ctx.pid, safe))
+    outp = ctx.path("%s-%s.trace" % (ctx.pid, safe))
+    vlib.write_ndjson(inp, scripts)
+    rc, out = _go(ctx, rel, ov, test, inp, outp, 1, timeout=go_timeout)
+    events = vlib.read_ndjson(outp) if os.path.exists(outp) else []
+    g = ctx.cov.setdefault(covkey, json.loads(json.dumps(fresh)))
+    g["scripts"] += len(scripts)
+    if rc != 0:   # the property does state that feeding feedback never panics / blocks
+        nres = sum(1 for e in events if e.get("a") == "reset")
+        vlib.report_violation(ctx, _crash_what(tag, out), {
+            "kind": tag, "level": "grow", "script": scripts[nres - 1] if 0 < nres <= len(scripts) else None,
+            "go_output": out[-6000:]})
+        return
+    v = vlib.validate(ctx, module, outp, timeout=1800)
+    if v.hw != v.n + 1 or "Error:" in v.out:
+        raise vlib.Infra("growth trace validator did not consume the trace (%s):\n%s" % (tag, v.out[-2500:]))
+    g["events"] += v.n
+    count(g, events)
+    hz = re.search(r'<<\s*"HAZARDS",([^>]*)>>', v.out)
+    if hz:      # hazards of the code as read that occurred in the recorded traces, counted by TLC (Trace_GccRate)
+        h = g.setdefault("hazards_observed", {})
+        for name, n in re.findall(r'"([a-z-]+)",\s*(\d+)', hz.group(1)):
+            h[name] = h.get(name, 0) + int(n)
     notes = ctx.cov.setdefault("growth_notes", [])
     first = {}
     for m in _GROWTH.finditer(v.out):
@@ -412,7 +445,7 @@ def grow_batch(ctx, scripts, tag):
         tag, len(traces), v.n, v.wall, dict((k, n) for k, n in g["diverging_traces"].items()) or "none"))
 
 
-def growth(ctx, rng):
+def growth_discrete(ctx, rng):
     quick = ctx.quick
     vlib.model_check(ctx, "MC_GccOveruse.tla", vlib.cfg_variant(ctx, "MC_GccOveruse.cfg", {"MaxSteps": 5 if quick else 7}),
                      workers=2 if quick else 6, note="overuse hysteresis + controller state, all sample sequences")
@@ -451,6 +484,222 @@ def growth(ctx, rng):
             "growth/rate-undefined: rateCalculator handed int(bits / 0 s) to onRateUpdate %d times (window of one packet or "
             "equal arrival times: int(+Inf) / int(NaN), not defined by the Go specification, MinInt64 on amd64); the "
             "specification leaves that output undefined" % g["rates_undefined"])
+
+
+# ---- the numeric stages: loss-based estimator, rate controller, kalman filter, wiring of the delay controller ----------
+# spec/GccRate.tla, GccKalman.tla; MC_GccRate (+ five negative controls); Gen_GccRate (enumeration + seeded walks);
+# harness zz_verif_gccrate_test.go; Trace_GccRate.  Same rules as above: growth only, a divergence is a NOTE.
+
+_RATE0 = {"scripts": 0, "events": 0, "loss_reports": 0, "loss_increases": 0, "loss_decreases": 0, "loss_gets": 0,
+          "rc_samples": 0, "rc_emitted": 0, "rc_states": {}, "kalman_updates": 0, "wire_batches": 0, "wire_emitted": 0,
+          "clock_retries": 0, "inconclusive": 0, "diverging_traces": {}}
+
+
+def _count_rate(g, events):
+    for e in events:
+        a = e["a"]
+        if a == "lupd":
+            g["loss_reports"] += 1
+            g["loss_increases"] += bool(e["sti"])
+            g["loss_decreases"] += bool(e["std"])
+            g["clock_retries"] += e["tries"] - 1
+        elif a == "lget":
+            g["loss_gets"] += 1
+        elif a == "rds":
+            g["rc_samples"] += 1
+            g["rc_emitted"] += e["emit"]
+            g["rc_states"][e["state"]] = g["rc_states"].get(e["state"], 0) + 1
+            g["clock_retries"] += e["tries"] - 1
+        elif a == "kal":
+            g["kalman_updates"] += 1
+        elif a == "wbatch":
+            g["wire_batches"] += 1
+            g["wire_emitted"] += len(e["out"])
+        elif a == "inconclusive":
+            g["inconclusive"] += 1
+
+
+def rate_batch(ctx, scripts, tag):
+    # the whole batch runs in seconds (no sleeps, a virtual clock): a call that does not return is reported after 5 minutes
+    grow_batch(ctx, scripts, tag, test="TestVerifGccRateExec", module="Trace_GccRate.tla", count=_count_rate,
+               covkey="growth_rate", fresh=_RATE0, go_timeout=300)
+
+
+def rate_scripts_from(beh):
+    """A Gen_GccRate behaviour: uniform records {a, lost, n, dt, w, r, d, usage, st}; the first one carries the configuration
+    (n = 1: loss-based estimator, n = 0: rate controller)."""
+    res = []
+    for b in beh:
+        i = b[0]
+        res.append({"lvl": "loss" if i["n"] == 1 else "rc", "init": i["w"], "min": i["r"], "max": i["d"], "steps": b[1:]})
+    return res
+
+
+def random_loss_script(rng, n):
+    steps = []
+    for _ in range(n):
+        q = rng.random()
+        if q < 0.75:
+            tot = rng.choice([1, 7, 50, 100, 1000, 1000, 0])
+            lost = 0 if tot == 0 else min(tot, rng.choice([0, 0, tot // 100, tot // 50, tot // 50 + 1, tot // 10, tot // 10 + 1,
+                                                             tot // 4, tot // 2, tot, rng.randrange(tot + 1)]))
+            steps.append({"a": "upd", "lost": lost, "n": tot,
+                          "dt": rng.choice([0, 500, 1000, 20000, 100000, 199500, 200000, 200500, 250000, 1000000, 3000000, 150000000])})
+        else:
+            steps.append({"a": "get", "w": rng.choice([0, -5, 50000, 99999, 100000, 150000, 1000000, 30000000, 150000000,
+                                                       rng.randrange(1, 200000000)]), "dt": rng.choice([0, 0, 1000])})
+    return {"lvl": "loss", "init": rng.choice([10000, 100000, 1000000, 5000, 100000000, 0, 2000000]), "min": 0, "max": 0,
+            "steps": steps}
+
+
+def random_rc_script(rng, n):
+    lo, hi = rng.choice([(5000, 50000000), (100000, 1000000), (300000, 2000000), (50000, 200000000), (5000, 5000)])
+    init = rng.choice([lo, hi, max(lo, min(hi, 100000)), max(lo, min(hi, 800000))])
+    steps, r = [], rng.choice([0, 90000, 120000, 1000000])
+    for _ in range(n):
+        q = rng.random()
+        if q < 0.25:
+            r = max(0, rng.choice([r, r + rng.randrange(-3000, 3000), int(r * rng.choice([0.5, 0.9, 1.1, 1.6])), 0, init,
+                                   rng.randrange(1, 3000000)]))
+            steps.append({"a": "recv", "r": r})
+        elif q < 0.35:
+            steps.append({"a": "rtt", "d": rng.choice([0, 500, 10000, 50000, 150000, 900000, -50000, -100000, -99500, -100500,
+                                                       -300000, 200000000, rng.randrange(-150000, 2000000)])})
+        else:
+            steps.append({"a": "ds", "usage": rng.choice(["normal", "normal", "overuse", "underuse"]),
+                          "st": rng.choice(["increase", "increase", "decrease", "hold"]),
+                          "dt": rng.choice([0, 0, 500, 1000, 5000, 20000, 100000, 500000, 999500, 1000000, 2500000])})
+    return {"lvl": "rc", "init": init, "min": lo, "max": hi, "steps": steps}
+
+
+def random_kalman_script(rng, n):
+    steps, m = [], 0
+    for _ in range(n):
+        m = rng.choice([0, m, m + 999, m - 999, m + 1000, m - 1000, 1000000, -1000000, 5000000, -20000000, 250000000,
+                        -1000000000, 1000000000, rng.randrange(-30000000, 30000000)])
+        m = max(-1000000000, min(1000000000, m))
+        steps.append({"a": "kal", "m": m})
+    return {"lvl": "kal", "init": 0, "min": 0, "max": 0, "steps": steps}
+
+
+def random_wire_script(rng, n):
+    dep, arr, acks = 100000, 300000, []
+    for i in range(n):
+        dep += rng.choice([0, 1000, 3000, 5000, 6000, 6000, 7000, 20000])
+        arr += rng.choice([0, 1000, 4000, 5000, 6000, 6000, 8000, 9000, 30000, -1000])
+        acks.append({"id": i + 1, "dep": dep, "arr": -1 if rng.random() < 0.05 else arr, "size": rng.choice([100, 1000, 1200])})
+    lo, hi = rng.choice([(5000, 50000000), (100000, 1000000), (300000, 2000000)])
+    return {"lvl": "wire", "init": rng.choice([lo, hi, (lo + hi) // 2]), "min": lo, "max": hi, "batch": rng.choice([1, 4, 10, 0]),
+            "acks": acks}
+
+
+RATE_NEG = [("MC_GccRate_neg_lossfloor.cfg", "Invariant LOutputInClamp is violated",
+             "negative control: 'what getEstimate returns lies in the estimator's own clamp' - it is min(wanted, bitrate)"),
+            ("MC_GccRate_neg_inclowers.cfg", "Invariant RIncNeverLowers is violated",
+             "negative control: 'an increase never lowers the target' - the additive branch returns min(target + inc, 1.5 x received)"),
+            ("MC_GccRate_neg_decraises.cfg", "Invariant RDecNeverRaises is violated",
+             "negative control: 'a decrease never raises the target' - 0.85 x received rate may lie above the target"),
+            ("MC_GccRate_neg_beyondcap.cfg", "Invariant RIncBelowCap is violated",
+             "negative control: 'an increase never goes above 1.5 x the received rate' - the cap binds only while it lies above the target"),
+            ("MC_GccRate_neg_nan.cfg", "Invariant RDefined is violated",
+             "negative control: a round-trip time of -100 ms makes the additive increase divide 0 ms by 0 ms (int(NaN))")]
+
+
+def growth_rate(ctx, rng):
+    quick = ctx.quick
+    got = {"beh": [], "walks": []}
+
+    def mc(c):
+        vlib.model_check(c, "MC_GccRate.tla", vlib.cfg_variant(c, "MC_GccRate.cfg", {"MaxSteps": 2 if quick else 3}),
+                         workers=1 if quick else 2, timeout=1200,
+                         note="loss-based estimator + rate controller at the real constants, every call sequence from 11 warm-up states")
+
+    def neg(i):
+        def job(c):
+            cfg, exp, note = RATE_NEG[i]
+            vlib.model_check(c, "MC_GccRate.tla", cfg, workers=1, expect_violation=exp, note=note)
+        return job
+
+    def enum(c):
+        if quick:
+            got["beh"] = vlib.generate(c, "Gen_GccRate.tla", vlib.cfg_variant(c, "Gen_GccRate.cfg", {
+                "L": 1, "Mode": '"both"', "Wide": "FALSE"}), workers=1)
+        else:
+            got["beh"] = vlib.generate(c, "Gen_GccRate.tla", vlib.cfg_variant(c, "Gen_GccRate.cfg", {
+                "L": 2, "Mode": '"loss"', "Wide": "TRUE"}), workers=1)
+            got["beh"] += vlib.generate(c, "Gen_GccRate.tla", vlib.cfg_variant(c, "Gen_GccRate.cfg", {
+                "L": 2, "Mode": '"rc"', "Wide": "FALSE"}), workers=1)
+
+    walks, depth = (24, 30) if quick else (600, 80)
+
+    def sim(c):
+        got["walks"] = vlib.generate(c, "Gen_GccRate.tla", vlib.cfg_variant(c, "Gen_GccRate_sim.cfg", {
+            "L": depth, "Mode": '"both"'}), simulate=(walks, depth + 3))
+
+    # generation first (the executor waits for it), the model-checking runs fill the remaining slots
+    jobs = [enum, sim, mc] + [neg(i) for i in (range(2) if quick else range(len(RATE_NEG)))]
+    vlib.run_parallel(ctx, jobs, max_workers=4 if quick else 3)      # at most 4 TLC worker threads at any time
+
+    def some(beh, k):
+        return beh if len(beh) <= k else rng.sample(beh, k)
+    scripts = rate_scripts_from(some(got["beh"], 300 if quick else 15000)) + rate_scripts_from(got["walks"][:walks])
+    n = 8 if quick else 300
+    scripts += [random_loss_script(rng, 40) for _ in range(n)] + [random_rc_script(rng, 60) for _ in range(n)]
+    scripts += [random_kalman_script(rng, 60) for _ in range(n // 2)] + [random_wire_script(rng, 40) for _ in range(n)]
+    rate_batch(ctx, scripts, "GROW-numeric")
+    if ctx.cov.get("growth_rate"):
+        notes = ctx.cov.setdefault("growth_notes", [])
+        hz = ctx.cov["growth_rate"].get("hazards_observed", {})
+        texts = {
+            "loss-below-floor": "lossBasedBandwidthEstimator.getEstimate returned (and kept) a bitrate below the estimator's own "
+                                "100 kbit/s floor %d times: it is min(wanted, bitrate), the clamp is applied only when the bitrate moves",
+            "decrease-raises": "rateController.decrease RAISED the target %d times: it goes to 0.85 x the received rate whether or "
+                               "not that lies below the current target",
+            "increase-lowers": "rateController.increase LOWERED the target %d times: near convergence it returns "
+                               "min(target + increase, 1.5 x received rate) without comparing with the current target",
+            "increase-beyond-cap": "rateController.increase raised the target %d times although it already lay at or above 1.5 x the "
+                                   "received rate: the 'maximum increase to 1.5 * received rate' binds only while 1.5 x received lies "
+                                   "ABOVE the target, at or below it the multiplicative branch adds 8 %%/s whatever is received",
+            "increase-undefined": "rateController.increase computed int(NaN) %d times (0 ms elapsed / 0 ms response time with "
+                                  "latestRTT in (-101 ms, -99 ms), or a target <= 0): not defined by the Go specification; on "
+                                  "amd64 the target falls to the configured minimum",
+        }
+        for k, n in sorted(hz.items()):
+            if n and k in texts:
+                notes.append("growth/hazard-%s: %s (the specification follows the code; MC_GccRate shows the unconditional "
+                             "monotonicity / definedness property failing)" % (k, texts[k] % n))
+
+
+def growth(ctx, rng):
+    """The discrete stages and the numeric stages are independent: they run side by side (own scratch directories), the
+    results are merged afterwards.  Nothing here changes the verdict except a panic / hang of a real stage."""
+    import threading
+    rrng = random.Random("%s/gccrate" % ctx.seed)
+    child = vlib.Ctx(ctx.pid, ctx.tier, ctx.seed)
+    child.replay_mode = getattr(ctx, "replay_mode", False)
+    err = []
+
+    def side():
+        try:
+            growth_rate(child, rrng)
+        except BaseException as e:   # re-raised in the main thread
+            err.append(e)
+    th = threading.Thread(target=side)
+    th.start()
+    try:
+        growth_discrete(ctx, rng)
+    finally:
+        th.join()
+    for k in ("states", "transitions", "behaviours_generated", "evaluations"):
+        ctx.cov[k] += child.cov[k]
+    ctx.cov["model_runs"] += child.cov["model_runs"]
+    ctx.violations += child.violations
+    if "growth_rate" in child.cov:
+        ctx.cov["growth_rate"] = child.cov["growth_rate"]
+    notes = ctx.cov.setdefault("growth_notes", [])
+    notes += [n for n in child.cov.get("growth_notes", []) if n not in notes]
+    if err:
+        raise err[0]
     for note in ctx.cov.get("growth_notes", []):
         print("NOTE: property=%s %s" % (ctx.pid, note), flush=True)
 
@@ -528,9 +777,14 @@ def replay(ctx, path):
     rep = json.load(open(path))
     scripts = vlib.replay_scripts(path)
     for sc in scripts:
+        if sc.get("lvl") in ("loss", "rc", "kal", "wire"):
+            rate_batch(ctx, [sc], "replay-grow")
+            continue
         if sc.get("lvl"):
             grow_batch(ctx, [sc], "replay-grow")
             continue
         run_batch(ctx, [sc], "replay", level="cc" if sc.get("level") == "cc" else "bwe", par=1,
                   race="race" in (rep.get("kind") or ""))
+    for note in ctx.cov.get("growth_notes", []):       # a growth script replayed: the divergence is a NOTE, as in run()
+        print("NOTE: property=%s %s" % (ctx.pid, note), flush=True)
     return vlib.finish(ctx, "model_checking", RULE)
